@@ -204,8 +204,11 @@ def analyse_method(f, drop_helpers, d1, d3, collect_only=False):
                 else:
                     if is_ctor or e.target in undocked:
                         good(d1, 'leave-item', 'old %s undocked before replacement%s' % (e.target, ' (constructor: placeholders)' if is_ctor else ''), e.stmt)
-                    elif is_slice and _is_placeholder_fill(val, callee_of):
+                    elif is_slice and _is_placeholder_fill(val, callee_of) and idx == '[len(%s):self._size:]' % LIST:
                         good(d1, 'leave-item', 'slice %s beyond the current length is filled with placeholders' % e.target, e.stmt)
+                    elif is_slice and _is_placeholder_fill(val, callee_of):
+                        report_fail(d1, 'placeholder-overwrites', 'placeholders are written into %s, which does not start at the current length of the list: '
+                                    'streams docked a moment ago are replaced without being undocked' % e.target, e.stmt)
                     else:
                         report_fail(d1, 'leave-item', 'entry %s replaced without undocking the stream it held' % e.target, e.stmt)
                 # entering
